@@ -90,9 +90,12 @@ PROPS["C03"] = {
              [H("c03_dec_%s" % t, "quick" if t in "ub" else "thorough", timeout=900, cost=60, recursion_bounds=REC1,
                 bounds="16 symbolic bytes, length 0..=16 symbolic, offset 0..7, byte order symbolic, unwind 9",
                 asserts="Ok iff the spec reader accepts; equal value and consumed count") for t in "ynqiuxtdb"] +
-             [H("c03_dec_%s" % t, "thorough", timeout=1500, cost=200, recursion_bounds=REC1, mem_gb=20,
-                bounds="8 symbolic bytes, length 0..=8 symbolic, offset 0..3, byte order symbolic, unwind 10",
-                asserts="Ok iff the spec reader accepts (zero padding, length inside buffer, NUL terminator, no interior NUL, UTF-8, path grammar); equal text and consumed count") for t in "so"]),
+             [H("c03_dec_%s_p%d" % (t, p), "quick" if (t, p) in (("s", 0), ("s", 3), ("o", 1)) else "thorough", timeout=1500, cost=200, recursion_bounds=REC1, mem_gb=14,
+                bounds="8 symbolic bytes, length 0..=8 symbolic, message offset %d, byte order symbolic, unwind 10; core::str::from_utf8 and memchr replaced by byte-loop specifications" % p,
+                asserts="Ok iff the spec reader accepts (zero padding, length inside buffer, NUL terminator, no interior NUL, UTF-8, path grammar); equal text and consumed count") for t in "so" for p in range(4)] +
+             [H(n, "quick" if n == "c03_dyn_o_p0" else "thorough", timeout=1500, cost=200, recursion_bounds=REC1, mem_gb=14,
+                bounds="Value target (ValueSeed path used for every variant payload), 8 symbolic bytes, length symbolic, byte order symbolic",
+                asserts="Ok iff the spec reader accepts, including object-path grammar; text borrowed from the input") for n in ["c03_dyn_o_p0", "c03_dyn_o_p2", "c03_dyn_s_p0"]]),
     ],
 }
 
@@ -181,6 +184,9 @@ PROPS["C10"] = {
             [H("c10_%s_ascii6" % n, "thorough", timeout=2400, cost=300,
                bounds="[u8;6] symbolic ASCII, len 0..=6 symbolic, unwind 9",
                asserts="try_from(&str).is_ok() == spec recogniser") for n in _names if n != "property"] +
+            [H("c10_%s_len255" % n, "thorough", timeout=2400, cost=400, mem_gb=16,
+               bounds="concrete valid content, length symbolic in {255, 256}, unwind 262",
+               asserts="accepted iff length <= 255") for n in ["unique", "wellknown", "busname_wk", "busname_uniq", "interface", "error", "member", "property"]] +
             [H("c10_%s_value4" % n, "quick", timeout=900, cost=70, role=("main" if n == "busname" else "witness"),
                bounds="Value::Str of [u8;4] symbolic ASCII, len 0..=4, unwind 7",
                asserts="TryFrom<Value>.is_ok() == spec recogniser") for n in _names if n != "objpath"],
@@ -225,12 +231,18 @@ PROPS["C23"] = {
 PROPS["PROBE7"] = {"claimed": False, "groups": [dict(ZV_INCRATE, harnesses=[
     H("bis5", timeout=600, mem_gb=14, recursion_bounds=REC1)])]}
 PROPS["PROBE9"] = {"claimed": False, "groups": [dict(ZV, harnesses=[
-    H("c01_enc_at", timeout=1800, mem_gb=24, recursion_bounds=REC1), H("c01_enc_ay", timeout=1800, mem_gb=24, recursion_bounds=REC1)])]}
+    H("c01_enc_at_p4_k1", timeout=1800, mem_gb=16, recursion_bounds=REC1), H("c01_enc_ay_p3_k2", timeout=1800, mem_gb=16, recursion_bounds=REC1)])]}
+PROPS["PROBE10"] = {"claimed": False, "groups": [dict(ZV, harnesses=[
+    H("c08_leaf_laws", timeout=1200, mem_gb=16), H("c08_leaf_laws_nan_witness", timeout=600), H("c08_leaf_clone_signature", timeout=1200, mem_gb=16)])]}
+PROPS["PROBE11"] = {"claimed": False, "groups": [dict(ZV, harnesses=[
+    H("sp1", timeout=900, mem_gb=14, recursion_bounds=REC1), H("sp2", timeout=900, mem_gb=14, recursion_bounds=REC1), H("sp3", timeout=900, mem_gb=14, recursion_bounds=REC1), H("sp4", timeout=900, mem_gb=14, recursion_bounds=REC1)])]}
+PROPS["PROBE12"] = {"claimed": False, "groups": [dict(ZB_INCRATE, in_crate_file="zbus_address.rs", harnesses=[
+    H("c23_unix_path_is_decoded", timeout=1500, mem_gb=16)])]}
 PROPS["PROBE8"] = {"claimed": False, "groups": [dict(ZV_INCRATE, harnesses=[
     H("c07_site_ser_struct", timeout=1200), H("c07_site_ser_array", timeout=1200),
     H("c07_site_de_struct", timeout=1200), H("c07_site_de_array", timeout=1200)])]}
 PROPS["PROBE6"] = {"claimed": False, "groups": [{"crate": "kani/sig", "harnesses": [
-    H("c06_validate_len2", timeout=3000, mem_gb=24), H("c06_validate_len3", timeout=3000, mem_gb=24)]}]}
+    H("c06_validate_len1", timeout=1500, mem_gb=16), H("c06_tmpl_a_x", timeout=1500, mem_gb=16), H("c06_tmpl_struct_x", timeout=1500, mem_gb=16)]}]}
 
 # ------------------------------------------------------------------ manifest-level data
 HOOKS = {
